@@ -9,6 +9,8 @@ mod hfam;
 mod inputs;
 mod mem;
 mod refs;
+mod zfam;
+mod zgen;
 
 use engine::*;
 
@@ -98,6 +100,8 @@ fn main() {
                 std::process::exit(1);
             }
         }
+        "dbgref" => debug_ref(args[2].parse().unwrap(), &args[3]),
+        "dbgsched" => debug_sched(args[2].parse().unwrap(), &args[3], args[4].parse().unwrap(), args[5].parse().unwrap(), args[6].parse().unwrap()),
         "selftest" => match self_test() {
             Ok(()) => println!("self-test ok"),
             Err(e) => {
@@ -113,6 +117,32 @@ fn main() {
         _ => {
             eprintln!("usage: zverif run <Cxx> <quick|thorough> | replay <file> | describe <Cxx> <tier> <idx> | count <Cxx> <tier> | selftest | list");
             std::process::exit(2);
+        }
+    }
+}
+
+#[allow(dead_code)]
+pub fn debug_ref(wb: i32, hexs: &str) {
+    let bytes: Vec<u8> = (0..hexs.len() / 2).map(|i| u8::from_str_radix(&hexs[2 * i..2 * i + 2], 16).unwrap()).collect();
+    let o = refs::inflate_ref::RefOpts::zlib();
+    println!("zlib(max 0): {:?}", refs::wrap::decode_zlib(&bytes, &o, 0));
+    println!("zlib(max 7): {:?}", refs::wrap::decode_zlib(&bytes, &o, 7));
+    println!("gzip: {:?}", refs::wrap::decode_gzip(&bytes, &o));
+    println!("raw: {:?}", refs::wrap::decode_raw(&bytes, &o));
+    let env = drv::Env::new();
+    println!("rs: {:?}", drv::run_inflate::<api::Rs>(wb, &bytes, &drv::ISched::one_shot(), &env, &drv::IExtra::default(), None).map(|t| (t.fin, t.consumed, t.out.len())));
+    println!("ng: {:?}", drv::run_inflate::<api::Ng>(wb, &bytes, &drv::ISched::one_shot(), &env, &drv::IExtra::default(), None).map(|t| (t.fin, t.consumed, t.out.len())));
+}
+
+#[allow(dead_code)]
+pub fn debug_sched(wb: i32, hexs: &str, n_in: usize, room: usize, flush: i32) {
+    let bytes: Vec<u8> = (0..hexs.len() / 2).map(|i| u8::from_str_radix(&hexs[2 * i..2 * i + 2], 16).unwrap()).collect();
+    let env = drv::Env::new();
+    let s = drv::ISched::uniform(if n_in == 0 { drv::AMPLE } else { n_in }, if room == 0 { drv::AMPLE } else { room }, flush);
+    for (n, r) in [("rs", drv::run_inflate::<api::Rs>(wb, &bytes, &s, &env, &drv::IExtra::default(), None)), ("ng", drv::run_inflate::<api::Ng>(wb, &bytes, &s, &env, &drv::IExtra::default(), None))] {
+        match r {
+            Ok(t) => println!("{n}: fin {:?} consumed {} out {} calls {:?}", t.fin, t.consumed, t.out.len(), t.calls),
+            Err(e) => println!("{n}: ERR {e}"),
         }
     }
 }
